@@ -2,6 +2,7 @@ import Lemmas.LogHandlers
 import Lemmas.LogHandlersErrs
 import Lemmas.TraceProto
 import Lemmas.TraceSync
+import Lemmas.LogEntry
 /-! # C13 — log handlers deliver each record whole, once, to every sink
 
 Property theorems only.  The definitions (`TL.render`, `TL.deliver`, `TL.withGroup`, `TL.withAttrs`, `TL.Buf.*`,
@@ -583,6 +584,208 @@ theorem with_attrs_empty (σ : Store) (m : ML.Handler) :
     (ML.withAttrs σ m []).1 = σ ∧ (ML.withAttrs σ m []).2.1.children = m.children := by
   have := mapDerive_same (fun s c => TL.withAttrs s c []) (by intro s c; simp [TL.withAttrs]) m.children σ
   simp [ML.withAttrs, this]
+
+/-! ## errs.Log* over tracelog (`errs/log.go`: `createRecord`, `log`/`logAttrs`, `stackValue`)
+
+`ELog.logToTL` is the body shared by the ten entry points (`Log`, `LogTo`, `LogContext`, `LogContextTo`, `LogWithLevel` and
+their `LogAttrs*` twins) run over a tracelog handler: enabled? — `createRecord` — the caller's attributes — `Handle`, result
+dropped.  The driver runs `ELog.createRecord` for every `logx` line and, for real `*errs.Error` values with their real
+stack text, the judge `sv` compares the bytes of the `Write` with `TL.format … (ELog.createRecord …)`. -/
+
+section ErrsLog
+open ELog
+
+/-- "followed by the stack-trace lines when the record carries an errs stack", END TO END from the entry point: an
+    error logged through `errs.Log*` into a synchronous tracelog handler that is enabled for the level and has no group
+    in force results in exactly ONE `Write`: the main line — level tag, time stamp, the error's `Message()`, then the
+    handler's and the caller's attributes exactly as for a record WITHOUT the stack attribute (the carrier prints
+    nothing on the main line) — a line feed, the error's `StackTrace(true)`, a line feed; the sink's error is dropped,
+    its panic reaches the caller.  (Hypothesis `hp`: the caller's own attributes carry no second stack; `hg`: the
+    reading of Appendix B, see `stack_lines_follow`.) -/
+theorem errlog_stack_lines_follow (σ : Store) (h : TL.Handler) (sk : SinkSt) (level : Int) (now : Bytes) (e : EErr)
+    (attrs : List Attr) (hen : level ≥ h.level) (hb : sk.buf = none) (hg : prefixE [] (σ.view h.list) = [])
+    (hp : carrierFreeL attrs = true) :
+    logToTL σ h sk level now (some e) attrs =
+      (sk, [mainLine h.names (σ.view h.list) { level := level, ts := now, msg := e.msg, attrs := attrs } ++ [10] ++
+              e.trace ++ [10]],
+        match sk.mode with | .panic => some h.sink | _ => none) ∧
+    TL.header h.names (createRecord level now (some e) attrs) = TL.levelTag h.names level ++ now ++ e.msg := by
+  have hen' : TL.enabled h level = true := (enabled_iff h level).mpr hen
+  have hr := stack_lines_follow σ h (createRecord level now (some e) attrs) [] attrs e.trace
+    (.leaf stackKey (logValueText e.trace)) hg (by simp [createRecord, stackAttr]) hp
+  have hm : mainLine h.names (σ.view h.list) (createRecord level now (some e) attrs) =
+      mainLine h.names (σ.view h.list) { level := level, ts := now, msg := e.msg, attrs := attrs } := by
+    simp [mainLine, allPieces, hg, createRecord, stackAttr, piecesL, pieces, anyVisible, texts, Piece.visible,
+      Piece.text, TL.header]
+  refine ⟨?_, rfl⟩
+  simp only [logToTL, logRecord, hen', if_true]
+  rw [one_write_per_record sk h.sink _ hb, hr, hm]
+  cases sk.mode <;> rfl
+
+/-- "every record AT OR ABOVE the configured level": below it, `errs.Log*` does nothing at all — no `Write`, the sink
+    state untouched, nothing reaches the caller -/
+theorem errlog_disabled_is_silent (σ : Store) (h : TL.Handler) (sk : SinkSt) (level : Int) (now : Bytes)
+    (err : Option EErr) (attrs : List Attr) (hlt : level < h.level) :
+    logToTL σ h sk level now err attrs = (sk, [], none) := by
+  have : TL.enabled h level = false := by simp [TL.enabled]; omega
+  simp [logToTL, logRecord, this]
+
+/-- a nil error (`errs.Log(nil, …)`, also a typed nil) is logged with an empty message and NO stack attribute: the one
+    `Write` is the main line of the caller's attributes and one line feed (unless the handler's own `WithAttrs` or the
+    caller's attributes carry a stack: hypothesis `hn`) -/
+theorem errlog_nil_error_one_line (σ : Store) (h : TL.Handler) (sk : SinkSt) (level : Int) (now : Bytes)
+    (attrs : List Attr) (hen : level ≥ h.level) (hb : sk.buf = none)
+    (hn : lastStack (allPieces (σ.view h.list) { level := level, ts := now, msg := [], attrs := attrs }) = none) :
+    (logToTL σ h sk level now none attrs).2.1 =
+      [mainLine h.names (σ.view h.list) { level := level, ts := now, msg := [], attrs := attrs } ++ [10]] := by
+  have hen' : TL.enabled h level = true := (enabled_iff h level).mpr hen
+  simp only [logToTL, logRecord, hen', if_true, createRecord]
+  rw [one_write_per_record sk h.sink _ hb, no_stack_one_line σ h _ hn]
+
+/-- the other half of the reading: under `WithGroup` (a non-empty prefix in force) the stack attribute of
+    `createRecord` is NOT picked up; it resolves through `stackValue.LogValue` and the record is, byte for byte, the
+    record that has the plain attribute `stack_trace=[l1 l2 …]` in its place -/
+theorem errlog_under_group_is_attribute (σ : Store) (h : TL.Handler) (level : Int) (now : Bytes) (e : EErr)
+    (attrs : List Attr) (hg : prefixE [] (σ.view h.list) ≠ []) :
+    TL.render σ h (createRecord level now (some e) attrs) =
+      TL.render σ h { level := level, ts := now, msg := e.msg,
+                      attrs := .leaf stackKey (logValueText e.trace) :: attrs } := by
+  rw [format_spec, format_spec]
+  have : allPieces (σ.view h.list) (createRecord level now (some e) attrs) =
+      allPieces (σ.view h.list) { level := level, ts := now, msg := e.msg,
+                                  attrs := .leaf stackKey (logValueText e.trace) :: attrs } := by
+    simp [allPieces, createRecord, stackAttr, piecesL, pieces, hg]
+  simp only [line, mainLine, this]
+  rfl
+
+/-- … made concrete: a handler under the groups `g₁ … gₙ` (n > 0) writes, for an error with message `m` and stack text
+    `tr` and plain caller attributes `kvs`, the ONE line
+    `header | g₁.….gₙ.stack_trace=[l1 l2 …] g₁.….gₙ.k₁=t₁ …\n` — and it IS one line as far as the stack goes: what
+    `LogValue` prints contains no line feed whatever the stack text is (the lines are split at the line feeds, trimmed
+    and joined by spaces; joining them by line feeds instead gives the stack text back: nothing else is removed by the
+    split) -/
+theorem errlog_under_group_one_line (σ : Store) (h : TL.Handler) (level : Int) (now : Bytes) (e : EErr)
+    (groups : List Bytes) (kvs : List (Bytes × Bytes)) (hv : σ.view h.list = groups.map Entry.grp)
+    (hne : ∀ g ∈ groups, g ≠ []) (hgs : groups ≠ []) :
+    TL.render σ h (createRecord level now (some e) (kvs.map fun kv => Attr.leaf kv.1 kv.2)) =
+      TL.levelTag h.names level ++ now ++ e.msg ++ [32, 124] ++
+        ([32] ++ groups.flatMap (· ++ [46]) ++ stackKey ++ [61] ++ logValueText e.trace) ++
+        kvs.flatMap (fun kv => [32] ++ groups.flatMap (· ++ [46]) ++ kv.1 ++ [61] ++ kv.2) ++ [10] ∧
+    10 ∉ logValueText e.trace ∧ joinLF (splitLF e.trace) = e.trace := by
+  have hpre : ∀ (gs : List Bytes) (p : Bytes), (∀ g ∈ gs, g ≠ []) →
+      prefixE p (gs.map Entry.grp) = p ++ gs.flatMap (· ++ [46]) := by
+    intro gs
+    induction gs with
+    | nil => intro p _; simp [prefixE]
+    | cons g gs ih =>
+      intro p hgs'
+      have h1 : g ≠ [] := hgs' g (List.mem_cons_self ..)
+      have := ih (p ++ (g ++ [46])) (fun x hx => hgs' x (List.mem_cons_of_mem _ hx))
+      simp [prefixE, h1, this]
+  have hg : prefixE [] (σ.view h.list) ≠ [] := by
+    rw [hv, hpre groups [] hne]
+    cases groups with
+    | nil => exact absurd rfl hgs
+    | cons g gs => simp
+  refine ⟨?_, logValueText_no_lf e.trace, joinLF_splitLF e.trace⟩
+  rw [errlog_under_group_is_attribute σ h level now e _ hg]
+  have := format_flat σ h { level := level, ts := now, msg := e.msg,
+      attrs := .leaf stackKey (logValueText e.trace) :: kvs.map fun kv => Attr.leaf kv.1 kv.2 } groups
+    ((stackKey, logValueText e.trace) :: kvs) hv hne (by simp) (by simp)
+  rw [this]
+  simp [TL.header, List.append_assoc]
+
+/-- non-vacuity: an error with a two-frame stack logged under group "g" -/
+example :
+    logValueText (TL.ascii "    [main.f] f.go:12\n    [main.g] g.go:3") = TL.ascii "[[main.f] f.go:12 [main.g] g.go:3]" ∧
+    logValueText [] = TL.ascii "[]" ∧ trimSpace [32, 0xC2, 0xA0, 97, 32, 98, 0xE2, 0x80, 0x83, 9] = [97, 32, 98] := by
+  decide
+
+end ErrsLog
+
+/-! ## errs.Recovery and multilog's per-child protection (`errs/recovery.go`, `multilog.go:64-68`)
+
+`Rec.recovery guarded eh handler p?` is `Recovery(handler)` running as the deferred call of a function that unwinds with
+the panic `p?` (or returns normally: `none`); `guarded = true` is the code (`defer Recovery(nil)` before the handler is
+called).  The driver runs it for every `rec` line and inside every multilog delivery whose tracelog child panics. -/
+
+section Recovery
+open Rec
+
+/-- "a child that … panics does not stop delivery": NO panic leaves a function protected by `defer errs.Recovery(h)` —
+    not the panic in flight (whatever its value: an error, a runtime error, a non-error), and not a panic of the
+    handler itself -/
+theorem recovery_contains_every_panic (eh : Errs.Heap) (h : HKind) (p? : Option PVal) :
+    (recovery true eh h p?).2.escaped = none := by
+  cases p? with
+  | none => rfl
+  | some p => cases h <;> cases p <;> rfl
+
+/-- contrast: without the line `defer Recovery(nil)` the panic of a bad handler escapes — the statement above is about
+    that line, not about the shape of the model -/
+example :
+    (recovery false #[] (.panics (.other "bad handler")) (some (.other "boom"))).2.escaped = some (.other "bad handler") ∧
+    (recovery true #[] (.panics (.other "bad handler")) (some (.other "boom"))).2.escaped = none := by
+  decide
+
+/-- the handler is called exactly once when there is a panic and a handler, and not at all otherwise; the error it
+    receives is a fresh non-empty `*errs.Error` "recovered from panic" whose cause is the panic value ITSELF when that
+    is an error (identity, not a copy; a typed-nil error is no cause) and otherwise a fresh `*errs.Error` whose message
+    is the `%+v` text of the value -/
+theorem recovery_calls_handler_once (g : Bool) (eh : Errs.Heap) (h : HKind) (p? : Option PVal) :
+    ((p? = none ∨ h = .nil) → recovery g eh h p? = (eh, {})) ∧
+    (∀ p, p? = some p → h ≠ .nil →
+      ∃ r, (recovery g eh h p?).2.calls = [.ref r] ∧ eh.size ≤ r ∧ r < (recovery g eh h p?).1.size ∧
+        Errs.msgOf (recovery g eh h p?).1 r = "recovered from panic" ∧
+        Errs.isEmpty (recovery g eh h p?).1 r = false ∧
+        (∀ v, p = .err v → Errs.unwrap (recovery g eh h p?).1 (.ref r) = (if Errs.isNil v then .nilIface else v)) ∧
+        (∀ t, p = .other t → Errs.unwrap (recovery g eh h p?).1 (.ref r) = .ref eh.size ∧
+          Errs.msgOf (recovery g eh h p?).1 eh.size = t)) := by
+  refine ⟨fun hh => ?_, fun p hp hn => ?_⟩
+  · rcases hh with hh | hh
+    · subst hh; rfl
+    · subst hh; cases p? <;> rfl
+  · subst hp
+    exact recovery_arg g eh h p hn
+
+/-- `Recovery` never modifies an error value that existed before — in particular not the `*errs.Error` a child
+    panicked with: every old cell is bit for bit what it was, and the heap stays well formed -/
+theorem recovery_keeps_panic_value (g : Bool) (eh : Errs.Heap) (h : HKind) (p? : Option PVal) (hwf : Errs.WF eh) :
+    Errs.WF (recovery g eh h p?).1 ∧ ∀ i, i < eh.size → (recovery g eh h p?).1[i]? = eh[i]? :=
+  ⟨(recovery_heap g eh h p? hwf).1, (recovery_heap g eh h p? hwf).2.2⟩
+
+/-- `multilog.runHandler`: never panics (it is a total function of how the child ended); hands back exactly what the
+    child returned, and for a child that panicked a fresh non-empty `*errs.Error` "recovered from panic" -/
+theorem run_handler_reports (eh : Errs.Heap) (f : Flow) :
+    (∀ v, f = .ret v → runHandler eh f = (eh, v)) ∧
+    (∀ p, f = .panic p → ∃ r, (runHandler eh f).2 = .ref r ∧ eh.size ≤ r ∧ r < (runHandler eh f).1.size ∧
+      Errs.isEmpty (runHandler eh f).1 r = false ∧ Errs.msgOf (runHandler eh f).1 r = "recovered from panic") :=
+  runHandler_val eh f
+
+/-- "Handle returns nil exactly when every delivery succeeded", WITH panics, end to end on the heap: run every enabled
+    child under `runHandler` (`Rec.runAll`, the heap threaded through), accumulate what came back (`ML.returned`): the
+    interface value `Handle` returns is nil exactly when every child RETURNED — none panicked — a value that counts as
+    no error.  One panicking child, whatever it panicked with, makes the result non-nil; and no error value that
+    existed before is modified by all of this. -/
+theorem fanout_nil_iff_no_failure_no_panic (eh : Errs.Heap) (fl : List Flow) (hwf : Errs.WF eh)
+    (hids : ∀ id, Flow.ret (.ref id) ∈ fl → id < eh.size) :
+    (ML.returned (runAll eh fl).1 (runAll eh fl).2 = .nilIface ↔
+      ∀ f ∈ fl, ∃ v, f = .ret v ∧ Errs.argItems eh v = []) ∧
+    (∀ i, i < eh.size → (ML.accumulate (runAll eh fl).1 (runAll eh fl).2).1[i]? = eh[i]?) := by
+  obtain ⟨x, hb, hiff⟩ := runAll_spec fl eh hwf hids
+  refine ⟨?_, fun i hi => ?_⟩
+  · rw [(handle_nil_iff_heap _ _ x.wf hb).1, hiff]
+  · rw [ML.accumulate_frame _ _ x.wf hb i (Nat.lt_of_lt_of_le hi x.sz), x.fr i hi]
+
+/-- non-vacuity: three children — ok, panics with a string, returns a plain error — give a non-nil result holding the
+    recovered panic and the error; three successes give nil -/
+example :
+    let r := runAll #[] [.ret .nilIface, .panic (.other "boom"), .ret (.plain 1 "e")]
+    ML.returned r.1 r.2 ≠ .nilIface ∧ r.2 = [.nilIface, .ref 1, .plain 1 "e"] ∧
+    (let r0 := runAll #[] [.ret .nilIface, .ret .typedNil, .ret .foreignNil]; ML.returned r0.1 r0.2 = .nilIface) := by
+  decide
+
+end Recovery
 
 /-! ## non-vacuity: the hypotheses are met by concrete values -/
 
